@@ -516,6 +516,13 @@ func c03Check(tier string) int {
 		os.MkdirAll(sbroot, 0o777)
 		pool.ChownNobody(sbroot)
 		out := pool.RunWorker([]string{"c03", tier, strconv.Itoa(k * per), strconv.Itoa((k + 1) * per)}, nil, budget(tier), true, "VERIF_SANDBOX="+sbroot)
+		if out.TimedOut && out.ExitCode != 3 {
+			// the wall-clock budget ran out (a loaded machine, a slower tree): not a verdict about the property
+			run.Add("workers_out_of_budget", 1)
+			run.Set("exhaustive", false)
+			run.Set("cap", "a worker exceeded the wall-clock budget of this tier; its share of the space was not completed")
+			return
+		}
 		if out.Crashed() {
 			g := specs[min(int(out.Progress[0]), len(specs)-1)]
 			run.Report(ev.Violation{Key: "worker-crash " + depString(g), Class: "process-crash",
